@@ -525,6 +525,9 @@ func nonNegative(info *types.Info, ld *eng.LocalDefs, fd *ast.FuncDecl, e ast.Ex
 		if bound, found := lowerGuard(info, fd, at, obj); found {
 			return true, "every path to the make passes a test that leaves when " + x.Name + " " + bound
 		}
+		if c, ok := counterStart(info, fd, obj); ok && c >= 0 {
+			return true, x.Name + " starts at " + fmt.Sprint(c) + " and is only incremented"
+		}
 		return false, "`" + x.Name + "` is computed (e.g. by a subtraction) and no test of `" + x.Name + "` itself that leaves for negative values dominates the make"
 	}
 	return false, "`" + eng.ExprStr(e) + "`"
@@ -684,6 +687,78 @@ func subtractiveIndexRule(p *core.Program, r *core.Report, region map[string]boo
 	r.Analysed["subtractive_indices_examined"] = n
 }
 
+// counterStart: obj is a counter — one constant initialisation, otherwise only incremented
+// (`++`, `+= c` with c a non-negative constant), its address never taken: it never falls below
+// the initial value.
+func counterStart(info *types.Info, fd *ast.FuncDecl, obj types.Object) (int64, bool) {
+	if obj == nil {
+		return 0, false
+	}
+	inits, other := []int64{}, false
+	ast.Inspect(fd.Body, func(n ast.Node) bool {
+		switch s := n.(type) {
+		case *ast.AssignStmt:
+			for i, l := range s.Lhs {
+				if lid, ok := l.(*ast.Ident); ok && objOf(info, lid) == obj {
+					if len(s.Lhs) == len(s.Rhs) && (s.Tok == token.DEFINE || s.Tok == token.ASSIGN) {
+						if tv, ok := info.Types[s.Rhs[i]]; ok && tv.Value != nil {
+							if c, ok := constInt(tv); ok {
+								inits = append(inits, c)
+								continue
+							}
+						}
+					}
+					if len(s.Lhs) == 1 && len(s.Rhs) == 1 && s.Tok == token.ADD_ASSIGN {
+						if tv, ok := info.Types[s.Rhs[0]]; ok && tv.Value != nil {
+							if c, ok := constInt(tv); ok && c >= 0 {
+								continue
+							}
+						}
+					}
+					other = true
+				}
+			}
+		case *ast.ValueSpec:
+			for i, nm := range s.Names {
+				if info.Defs[nm] == obj {
+					if i < len(s.Values) {
+						if tv, ok := info.Types[s.Values[i]]; ok && tv.Value != nil {
+							if c, ok := constInt(tv); ok {
+								inits = append(inits, c)
+								continue
+							}
+						}
+						other = true
+					} else {
+						inits = append(inits, 0)
+					}
+				}
+			}
+		case *ast.IncDecStmt:
+			if lid, ok := s.X.(*ast.Ident); ok && objOf(info, lid) == obj && s.Tok == token.DEC {
+				other = true
+			}
+		case *ast.UnaryExpr:
+			if s.Op == token.AND {
+				if lid, ok := s.X.(*ast.Ident); ok && objOf(info, lid) == obj {
+					other = true
+				}
+			}
+		case *ast.RangeStmt:
+			for _, e := range []ast.Expr{s.Key, s.Value} {
+				if lid, ok := e.(*ast.Ident); ok && objOf(info, lid) == obj {
+					other = true
+				}
+			}
+		}
+		return true
+	})
+	if len(inits) == 1 && !other {
+		return inits[0], true
+	}
+	return 0, false
+}
+
 // lowerBoundAt: the best lower bound of the integer expression v that the structure of fd
 // establishes at node `at` (math.MinInt64 = none).
 func lowerBoundAt(info *types.Info, ld *eng.LocalDefs, fd *ast.FuncDecl, v ast.Expr, at ast.Node) (int64, string) {
@@ -703,56 +778,8 @@ func lowerBoundAt(info *types.Info, ld *eng.LocalDefs, fd *ast.FuncDecl, v ast.E
 	}
 	var ne []int64
 	if id, ok := eng.Unparen(v).(*ast.Ident); ok {
-		// a counter: one constant initialisation, otherwise only ++
-		obj := info.Uses[id]
-		inits, other := []int64{}, false
-		ast.Inspect(fd.Body, func(n ast.Node) bool {
-			switch s := n.(type) {
-			case *ast.AssignStmt:
-				for i, l := range s.Lhs {
-					if lid, ok := l.(*ast.Ident); ok && objOf(info, lid) == obj {
-						if len(s.Lhs) == len(s.Rhs) && (s.Tok == token.DEFINE || s.Tok == token.ASSIGN) {
-							if tv, ok := info.Types[s.Rhs[i]]; ok && tv.Value != nil {
-								if c, ok := constInt(tv); ok {
-									inits = append(inits, c)
-									continue
-								}
-							}
-						}
-						other = true
-					}
-				}
-			case *ast.ValueSpec:
-				for i, nm := range s.Names {
-					if info.Defs[nm] == obj {
-						if i < len(s.Values) {
-							if tv, ok := info.Types[s.Values[i]]; ok && tv.Value != nil {
-								if c, ok := constInt(tv); ok {
-									inits = append(inits, c)
-									continue
-								}
-							}
-							other = true
-						} else {
-							inits = append(inits, 0)
-						}
-					}
-				}
-			case *ast.IncDecStmt:
-				if lid, ok := s.X.(*ast.Ident); ok && objOf(info, lid) == obj && s.Tok == token.DEC {
-					other = true
-				}
-			case *ast.UnaryExpr:
-				if s.Op == token.AND {
-					if lid, ok := s.X.(*ast.Ident); ok && objOf(info, lid) == obj {
-						other = true
-					}
-				}
-			}
-			return true
-		})
-		if len(inits) == 1 && !other {
-			raise(inits[0], "starts at "+fmt.Sprint(inits[0])+" and is only incremented")
+		if c, ok := counterStart(info, fd, info.Uses[id]); ok {
+			raise(c, "starts at "+fmt.Sprint(c)+" and is only incremented")
 		}
 	}
 	for _, f := range eng.FactsAt(fd.Body, at) {
